@@ -62,6 +62,12 @@ def lock_invariant(o):
     return all(e[1] is not None and e[2] == e[3] for e in rel), len(rel)
 
 
+def lock_invariant_reverse(o):
+    """... and every actor's reverse index (its relations record) names the group iff the actor is a member of it"""
+    rel = [e for e in o.st.trace if e[0] == 'RELEASE']
+    return all(e[1] is not None and e[4] is True for e in rel)
+
+
 def notifications(o):
     res = []
     for e in o.st.trace:
@@ -109,6 +115,7 @@ def check_mutations(ctx, prog, S):
                         s = w.read(o.st)
                         claims = dict(pw.invariant(s))
                         claims['index_agrees_with_membership_whenever_the_group_entry_is_released'], n_rel = lock_invariant(o)
+                        claims['reverse_index_agrees_with_membership_whenever_the_group_entry_is_released'] = lock_invariant_reverse(o)
                         before = set(members[(S['D'], g)])
                         after = set(s['members'].get((S['D'], g), []))
                         other = 'g2' if g == 'g1' else 'g1'
@@ -160,6 +167,7 @@ def check_mutations(ctx, prog, S):
                     s = w.read(o.st)
                     claims = dict(pw.invariant(s))
                     claims['index_agrees_with_membership_whenever_the_group_entry_is_released'], n_rel = lock_invariant(o)
+                    claims['reverse_index_agrees_with_membership_whenever_the_group_entry_is_released'] = lock_invariant_reverse(o)
                     if n_rel:
                         seen.add('entry_released')
                     notes = notifications(o)
